@@ -149,9 +149,26 @@ template <class AutT, unsigned N> void load(AutT& aut, const Aut<N>& A, StateDic
 }
 // what a dump says, over states < N: rules, final states, the `states` component; ok = nothing outside the universe
 template <unsigned N> struct Dump { Aut<N> aut; unsigned states; bool ok; };
+// free = false: state qk is universe state k (for automata whose state names the harness fixed itself: operands, results of
+//   operations that keep the states of their operands).
+// free = true: numbering-independent decoding, for results whose state NUMBERS are chosen by the library (Union and
+//   Intersection renumber: translation maps are out-parameters).  The names that occur (any of q0..q7) are entered into a
+//   slot table in order of first occurrence and the dump is decoded over the slots 0..N-1; ok = false if more than N distinct
+//   states occur.  Languages, `states`, usefulness etc. of the decoded automaton do not depend on the slot assignment, so a
+//   library that numbers the states of such a result differently (not densely, not from 0, ...) decodes to an isomorphic mask
+//   automaton.
 template <unsigned N> struct Decoder : VATA::Serialization::AbstrSerializer {
-  Dump<N> out;
-  unsigned idx(const std::string& s, bool& ok) { unsigned k = stateIndex(s); ok = ok & (k < N); return k; }
+  Dump<N> out; bool free_; unsigned slotName[N]; bool slotUsed[N];
+  explicit Decoder(bool fr = false) : free_(fr) { for (unsigned i = 0; i < N; ++i) { slotName[i] = 0; slotUsed[i] = false; } }
+  unsigned idx(const std::string& s, bool& ok) {
+    unsigned k = stateIndex(s);
+    if (!free_) { ok = ok & (k < N); return k; }
+    ok = ok & (k < MAXQ);
+    bool placed = false; unsigned slot = 255;
+    for (unsigned i = 0; i < N; ++i) { bool h = slotUsed[i] & (slotName[i] == k); slot = h ? i : slot; placed = placed | h; }
+    for (unsigned i = 0; i < N; ++i) { bool here = !placed & !slotUsed[i]; slotName[i] = here ? k : slotName[i]; slotUsed[i] = slotUsed[i] | here; slot = here ? i : slot; placed = placed | here; }
+    ok = ok & placed; return slot;
+  }
   std::string Serialize(const Desc& d) override {
     out.ok = true; out.states = 0; out.aut.clear();
     for (const std::string& f : d.finalStates) { unsigned k = idx(f, out.ok); for (unsigned s = 0; s < N; ++s) out.aut.fin[s] |= (k == s); }
@@ -169,5 +186,5 @@ template <unsigned N> struct Decoder : VATA::Serialization::AbstrSerializer {
     return std::string();
   }
 };
-template <unsigned N, class AutT> Dump<N> dump(const AutT& aut, const StateDict& dict) { Decoder<N> D; aut.DumpToString(D, dict); return D.out; }
+template <unsigned N, class AutT> Dump<N> dump(const AutT& aut, const StateDict& dict, bool free = false) { Decoder<N> D(free); aut.DumpToString(D, dict); return D.out; }
 }
